@@ -142,8 +142,7 @@ StartItem(ps, f, name) ==
        THEN IF ps.pc.ignore THEN SetTop(ps, [f EXCEPT !.oi = 0, !.st = 10, !.cmt = Null])
             ELSE IF f.kv
               THEN (* free-form key=value section: the key is created on the fly *)
-                   LET key == [name |-> name, type |-> "str", flags |-> {}, cb |-> {},
-                               vals |-> <<>>, reset |-> FALSE, mod |-> FALSE, cmt |-> Null]
+                   LET key == FreeKey(name)
                        n   == Len(f.sec.opts) + 1
                    IN SetTop(ps, [f EXCEPT !.sec.opts = Append(@, key), !.oi = n, !.st = 1])
             ELSE FailD(ps)
